@@ -5,6 +5,9 @@
     package-level instance assigns a field through its receiver (no hidden state that could make a result depend on
     earlier calls — a memo, a free list, a resume hint);
   * no struct field is assigned directly from a slice parameter (no aliasing of caller memory);
+  * the only assignments to fields through a method receiver are the three known ones in `utils` (`BitList.SetBit`,
+    `BitList.grow`, and the Reed–Solomon cache in `getPolynomial`, which C15–C17 treat) — an object that several calls
+    share (the encoders' package-level `ec`, its `ReedSolomonEncoder`) gets no new memory;
   * no local variable or struct field is a fixed-size array beyond the known 5-element 2-of-5 patterns (the models work
     on unbounded lists; a scratch buffer of fixed capacity is a precondition they do not carry).
   Every property whose model treats an encoder as a function of its arguments depends on these facts, so they are among
@@ -24,14 +27,14 @@ namespace BV.Props.Pure1D
 open BV
 
 theorem pure1D_no_hidden_state :
-    Gen.Root.fact_globalWrites = [] ∧ Gen.Root.fact_aliasAssign = [] ∧ Gen.Root.fact_fixedArrays = [] ∧
-    Gen.Utils.fact_globalWrites = [] ∧ Gen.Utils.fact_aliasAssign = [] ∧ Gen.Utils.fact_fixedArrays = [] ∧
-    Gen.Code128.fact_globalWrites = [] ∧ Gen.Code128.fact_aliasAssign = [] ∧ Gen.Code128.fact_fixedArrays = [] ∧
-    Gen.Code39.fact_globalWrites = [] ∧ Gen.Code39.fact_aliasAssign = [] ∧ Gen.Code39.fact_fixedArrays = [] ∧
-    Gen.Code93.fact_globalWrites = [] ∧ Gen.Code93.fact_aliasAssign = [] ∧ Gen.Code93.fact_fixedArrays = [] ∧
-    Gen.Codabar.fact_globalWrites = [] ∧ Gen.Codabar.fact_aliasAssign = [] ∧ Gen.Codabar.fact_fixedArrays = [] ∧
-    Gen.Ean.fact_globalWrites = [] ∧ Gen.Ean.fact_aliasAssign = [] ∧ Gen.Ean.fact_fixedArrays = [] ∧
-    Gen.Twooffive.fact_globalWrites = [] ∧ Gen.Twooffive.fact_aliasAssign = [] ∧ Gen.Twooffive.fact_fixedArrays = ["local:_:twooffive.pattern", "local:a:twooffive.pattern", "local:b:twooffive.pattern"] := by
+    Gen.Root.fact_globalWrites = [] ∧ Gen.Root.fact_aliasAssign = [] ∧ Gen.Root.fact_fixedArrays = [] ∧ Gen.Root.fact_receiverWrites = [] ∧
+    Gen.Utils.fact_globalWrites = [] ∧ Gen.Utils.fact_aliasAssign = [] ∧ Gen.Utils.fact_fixedArrays = [] ∧ Gen.Utils.fact_receiverWrites = ["BitList_SetBit:data", "BitList_grow:data", "ReedSolomonEncoder_getPolynomial:polynomes"] ∧
+    Gen.Code128.fact_globalWrites = [] ∧ Gen.Code128.fact_aliasAssign = [] ∧ Gen.Code128.fact_fixedArrays = [] ∧ Gen.Code128.fact_receiverWrites = [] ∧
+    Gen.Code39.fact_globalWrites = [] ∧ Gen.Code39.fact_aliasAssign = [] ∧ Gen.Code39.fact_fixedArrays = [] ∧ Gen.Code39.fact_receiverWrites = [] ∧
+    Gen.Code93.fact_globalWrites = [] ∧ Gen.Code93.fact_aliasAssign = [] ∧ Gen.Code93.fact_fixedArrays = [] ∧ Gen.Code93.fact_receiverWrites = [] ∧
+    Gen.Codabar.fact_globalWrites = [] ∧ Gen.Codabar.fact_aliasAssign = [] ∧ Gen.Codabar.fact_fixedArrays = [] ∧ Gen.Codabar.fact_receiverWrites = [] ∧
+    Gen.Ean.fact_globalWrites = [] ∧ Gen.Ean.fact_aliasAssign = [] ∧ Gen.Ean.fact_fixedArrays = [] ∧ Gen.Ean.fact_receiverWrites = [] ∧
+    Gen.Twooffive.fact_globalWrites = [] ∧ Gen.Twooffive.fact_aliasAssign = [] ∧ Gen.Twooffive.fact_fixedArrays = ["local:_:twooffive.pattern", "local:a:twooffive.pattern", "local:b:twooffive.pattern"] ∧ Gen.Twooffive.fact_receiverWrites = [] := by
   decide
 
 end BV.Props.Pure1D
